@@ -805,7 +805,7 @@ func r10_1(c *Ctx, lf *lexFacts, la *lexAnchors, capOK bool) {
 				} else if c.bceProvenIn(f, in.Pos()) {
 					c.ok(k, in.Pos(), bceWhy)
 				} else {
-					c.bad(k, in.Pos(), "index %s[%s] is not shown to be in range", base.Name(), idx.Name())
+					c.unres(k, in.Pos(), "index %s[%s] is not shown to be in range (no dominating bound recognised, not proven by the compiler either): it may panic", base.Name(), idx.Name())
 				}
 			case *ssa.Slice:
 				if _, isStr := x.X.Type().Underlying().(*types.Basic); !isStr {
@@ -841,7 +841,7 @@ func r10_1(c *Ctx, lf *lexFacts, la *lexAnchors, capOK bool) {
 					c.ok(k, in.Pos(), bceWhy)
 					return
 				}
-				c.bad(k, in.Pos(), "slice of %s is not shown to be in range", x.X.Name())
+				c.unres(k, in.Pos(), "slice of %s is not shown to be in range (no dominating bound recognised, not proven by the compiler either): it may panic", x.X.Name())
 			case *ssa.MapUpdate:
 				k := key("map write")
 				if _, isMake := x.Map.(*ssa.MakeMap); isMake {
